@@ -3,6 +3,7 @@ module verif
 go 1.23.0
 
 require (
+	github.com/a-h/parse v0.0.0-20250122154542-74294addb73e
 	github.com/a-h/templ v0.0.0
 	github.com/andybalholm/brotli v1.1.0
 	golang.org/x/net v0.37.0
@@ -10,7 +11,6 @@ require (
 )
 
 require (
-	github.com/a-h/parse v0.0.0-20250122154542-74294addb73e // indirect
 	golang.org/x/mod v0.20.0 // indirect
 	golang.org/x/sync v0.10.0 // indirect
 )
